@@ -22,7 +22,7 @@ CHECKS = {
   ref="DESIGN.md section 3 C16"),
  "C01": dict(
   text="Bounded symbolic model checking of the real optimizer (constructor, step(), distributor, preconditioner lists) on the symbolic torch stand-in against a per-block reference model of the documented update rule: all ten continuous hyperparameters, all parameter and gradient entries (and gradient presence, scheduler changes of lr/weight decay) are solver variables; every equality regime of the hyperparameters that the code tests for is explored; after each step parameters, every checkpointable state tensor, the step counter and the arguments/timing of every inverse-root computation are proved equal to the reference (polynomial identities, z3).",
-  note="Trusted: real arithmetic for floats (rounding outside the claim, dtypes as tags); matrix_inverse_root is a recording stub (fresh symmetric matrix, a function of its arguments); shapes/categorical options enumerated within the bound (<=8 elements per parameter, T<=2 plain / <=4 re-based); diagonality fast-path flag followed on the generic side only; grafting guard calibrated from the implementation within [0,1e-12]; reference model written from the docstrings/README.",
+  note="Trusted: real arithmetic for floats (rounding outside the claim, dtypes as tags); matrix_inverse_root is a recording stub (fresh symmetric matrix, a function of its arguments); shapes/categorical options enumerated within the bound (<=8 elements per parameter, T<=2 plain / <=4 re-based, plus one step from an arbitrary re-based state at an arbitrary symbolic step number k); two groups with own symbolic hyperparameters; one genuine defect recorded in known_findings.json (momentum enabled by a scheduler); diagonality fast-path flag followed on the generic side only; grafting guard calibrated from the implementation within [0,1e-12]; reference model written from the docstrings/README.",
   ref="DESIGN.md section 3 C01"),
  "C02": dict(
   text="Bounded symbolic model checking: (1) the real optimizer in warm-up against reference models of torch.optim SGD/Adagrad/RMSprop/Adam/AdamW (validated against the real classes in every run) for symbolic hyperparameters, parameters, gradients and presence patterns on blocked/merged layouts; (2) norm transfer: for the recorded Shampoo direction S, grafted direction G and applied direction D of every block z3 proves D*(|S|+d)=|G|*S, and a z3 side lemma derives collinearity, orientation and (1-1e-9)|G|<=|D|<=|G| for |S|>=1e-3.",
@@ -34,11 +34,11 @@ CHECKS = {
   ref="DESIGN.md section 3 C04"),
  "C09": dict(
   text="Bounded symbolic model checking, differential: optimizer A runs on the stand-in with symbolic gradients/hyperparameters; at every stop step its real distributed_state_dict() is deep-copied and loaded by the real load_distributed_state_dict() into a freshly constructed optimizer B; parameters and every state tensor of A and B must be equal terms after each remaining step. Key uniqueness (flat keys = state tensors) and strictness of loading (a solver-chosen index removes a flat entry / renames a parameter / changes the group key; loading must raise).",
-  note="Trusted: as C01 (real arithmetic, recording stubs that are functions of their arguments); T<=3 (quick)/4 (thorough); generic equality regime; serial state layout (DTensor layout is exercised in C06); torch.save serialisation outside the claim.",
+  note="Trusted: as C01 (real arithmetic, recording stubs that are functions of their arguments); T<=3 (quick)/4 (thorough); generic equality regime; serial layout and DDP/DTensor layout (world 2 on the rank simulator; DDP counterexamples have no real-backend replay and would be inconclusive); torch.save serialisation outside the claim.",
   ref="DESIGN.md section 3 C09"),
  "C13": dict(
   text="Bounded symbolic model checking with a symbolic outcome per matrix-routine call (success / raise / NaN / Inf result), symbolic gradient presence, NaN gradients and a symbolic integer tolerance N: a per-block reference counter decides on every path whether step() must raise; failed factors keep their matrix; non-finite factors/results raise PreconditionerValueError with all parameters unchanged; stored roots/eigenbases never carry the non-finite marker. Shampoo and SOAP lists.",
-  note="Trusted: recording stubs for the matrix routines; non-finite values as tensor-level markers propagated by every stand-in operation; <=3 refreshes (quick)/<=4 (thorough), N<=3, weight decay/momentum/filtering off.",
+  note="Trusted: recording stubs for the matrix routines; non-finite values as tensor-level markers propagated by every stand-in operation, float downcasts optionally a symbolic overflow event; <=3 refreshes (quick)/<=4 (thorough), N<=3, weight decay/momentum/filtering off.",
   ref="DESIGN.md section 3 C13"),
  "C03": dict(
   text="Bounded symbolic model checking of the real EigenvalueCorrectedShampooPreconditionerList inside the real optimizer against a SOAP reference model: the eigenvector routine is a recording stub (contract: orthonormal result), so validity of stored bases reduces to proved statements - the stored basis changes only at schedule steps and equals what the routine returned for the current factor matrix (QR: with the previous basis as estimate, operands the routine can multiply); corrected eigenvalues, rotated/rotated-back directions, no-basis and ignored-dims cases, order-3 rotate pairing and all state tensors are proved equal to the reference (z3 polynomial identities).",
@@ -62,7 +62,7 @@ CHECKS = {
   ref="DESIGN.md section 3 C12"),
  "C06": dict(
   text="Bounded symbolic model checking on the stand-in's lock-step rank simulator: R simulated ranks run the real DDPDistributor/optimizer (threads passing one baton, all_gather as rendezvous with deadlock detection, per-rank logs of process-group creations and collectives); per path (symbolic hyperparameters, values, gradients, presence) every rank's parameters are proved equal to the serial run, all members of a communicator issue the same collectives, all ranks create the same multi-member groups in the same order, each block's state lives on one rank of its group. Counterexamples are replayed with real multi-process gloo under a timeout.",
-  note="Trusted: the simulator checks the SPMD contract, not backend timing (equal collective sequences => interleaving independence is the standard SPMD argument); world<=4 (8 thorough), T=2, FP32 communication only (reduced-precision rounding not modelled in this round); as C01 otherwise. Two genuine defects are recorded in known_findings.json (rank starvation; per-owner mesh creation for 1<group<world).",
+  note="Trusted: the simulator checks the SPMD contract, not backend timing (equal collective sequences => interleaving independence is the standard SPMD argument); world<=4 (8 thorough), T=2; BF16/FP16 communication for one step with rounding as an uninterpreted function; as C01 otherwise. Two genuine defects are recorded in known_findings.json (rank starvation; per-owner mesh creation for 1<group<world).",
   ref="DESIGN.md section 3 C06"),
  "C07": dict(
   text="Bounded symbolic model checking, differential: each simulated shard rank runs the real FSDPDistributor (HSDP: HSDPDistributor over a simulated replicate x shard mesh with all_gather) inside the real optimizer on its flat shard with hand-built metadata; every element of every shard is proved equal to the serial optimizer run on the documented recovered sub-tensors as independent parameters, and every element of the original parameter is covered exactly once across the shard ranks. Symbolic hyperparameters, values, gradients, presence; shard boundaries enumerated (mid-row, aligned, single element, empty, inner-slice).",
